@@ -13,7 +13,11 @@
 
 package jsonrpc
 
-import jsoniter "github.com/json-iterator/go"
+import (
+	"encoding/json"
+
+	jsoniter "github.com/json-iterator/go"
+)
 
 type Codec interface {
 	Marshal(v interface{}) ([]byte, error)
@@ -49,6 +53,25 @@ type Response struct {
 	ID      int64                  `json:"id"`
 	Headers map[string]interface{} `json:"headers,omitempty"`
 	Result  interface{}            `json:"result,omitempty"`
+	Error   *Error                 `json:"error,omitempty"`
+}
+
+// rawRequest and rawResponse are what the codecs decode into: parameters and result stay
+// raw JSON until their Go types are known. Decoding them into interface{} first turns every
+// number into a float64, which silently changes integers beyond 2^53.
+type rawRequest struct {
+	JSONRPC string                 `json:"jsonrpc"`
+	ID      int64                  `json:"id"`
+	Headers map[string]interface{} `json:"headers,omitempty"`
+	Method  string                 `json:"method"`
+	Params  []json.RawMessage      `json:"params,omitempty"`
+}
+
+type rawResponse struct {
+	JSONRPC string                 `json:"jsonrpc"`
+	ID      int64                  `json:"id"`
+	Headers map[string]interface{} `json:"headers,omitempty"`
+	Result  json.RawMessage        `json:"result,omitempty"`
 	Error   *Error                 `json:"error,omitempty"`
 }
 
